@@ -1,4 +1,5 @@
 import StrettoModel.Model.Cache
+import StrettoModel.Model.Builder
 import Driver.Util
 import Driver.Policy
 /-!
@@ -197,6 +198,8 @@ structure Ghost where
   keyCharges : List (Nat × Int) := []
   /-- deadline (created + ttl, 0 = none) of the last effective write per key -/
   lastDeadline : List (Nat × Nat) := []
+  /-- per blocked wait(): what had been removed / accepted before the call (the barrier's subject) -/
+  waitSubjects : List (Nat × List Nat × List Nat) := []
   /-- blocked wait() calls in the order their markers were enqueued (from the implementation's lines) -/
   waitFifo : List Nat := []
   /-- blocked clear()/close() calls in request order -/
@@ -282,6 +285,22 @@ def monitorSnapshot (tl : Tally) (g : Ghost) (s : CSnap) (quiescentExtra : Bool)
   | none => pure ()
   return tl
 
+/-- C18: an action issued for key `(k, cf)` leaves a resident entry of a colliding key `(k, cf')`,
+`cf' ≠ cf`, both non-zero, exactly as it was, and does not hand out its value -/
+def monitorIsolation (tl : Tally) (g : Ghost) (snap : CSnap) (k cf : Nat) (what : String)
+    (returned : Option Nat) (cbs : List CB) : Tally :=
+  match g.prev.bind (fun p => findItem p k) with
+  | some (_, pcf, pv, pd, pcr) =>
+    if cf != 0 && pcf != 0 && cf != pcf then
+      let tl := if findItem snap k == some (k, pcf, pv, pd, pcr) then tl
+        else tl.monitorAt "C18" s!"{what} for key ({k},{cf}) changed or removed the entry of the colliding key ({k},{pcf})"
+      let tl := if returned == some pv then
+          tl.monitorAt "C18" s!"{what} for key ({k},{cf}) returned value {pv} of the colliding key ({k},{pcf})" else tl
+      if cbs.any (·.val == pv) then
+        tl.monitorAt "C18" s!"{what} for key ({k},{cf}) handed value {pv} of the colliding key ({k},{pcf}) to a callback" else tl
+    else tl
+  | none => tl
+
 def noteCallbacks (g : Ghost) (cbs : List CB) : Ghost :=
   { g with calledBack := cbs.map CB.val ++ g.calledBack }
 
@@ -330,6 +349,20 @@ partial def stepCache (st : CacheSt) (tl : Tally) (act : String) (ans : String) 
                          pqCap := pq.toNat?, metricsOn := me == 1 }
       ({ c := some (Cache.init cfg mx sm), g := { validator := vl } }, { tl with ok := tl.ok + 1 })
     | _, _, _, _, _, _, _, _, _ => (st, tl.badAt act)
+  | "f.config" :: rest =>
+    let kv := kvs rest
+    match getNat kv "counters", getInt kv "max", getNat kv "buf", lookup r "ret" with
+    | some nc, some mc, some bs, some ret =>
+      let v := finalizeCheck nc mc bs
+      let tl := tl.bump s!"finalize.{v.name}"
+      -- C20 monitor: zero parameters are rejected with their own error, everything else is accepted
+      let tl := if (nc == 0 || mc == 0 || bs == 0) && ret == "ok" then
+          tl.monitorAt "C20" s!"finalize() accepted counters={nc} max_cost={mc} buffer={bs}" else tl
+      let tl := if nc != 0 && mc != 0 && bs != 0 && ret != "ok" then
+          tl.monitorAt "C20" s!"finalize() rejected the valid configuration counters={nc} max_cost={mc} buffer={bs} with {ret}" else tl
+      if v.name == ret then (st, { tl with ok := tl.ok + 1 })
+      else (st, (tl.divergeAt "f.config" v.name ret).monitorAt "C20" s!"finalize(counters={nc}, max_cost={mc}, buffer={bs}) = {ret}, expected {v.name}")
+    | _, _, _, _ => (st, tl.badAt act)
   | ["c.clock", t] =>
     match t.toNat? with
     | some t =>
@@ -417,6 +450,7 @@ partial def stepCache (st : CacheSt) (tl : Tally) (act : String) (ans : String) 
           | none => false
         let g := if dropped && !wasUpdatePath then { g with dropsExpected := g.dropsExpected + 1 } else g
         let g := if retS == "err" then { g with errored := true } else g
+        let tl := monitorIsolation tl g snap k cf "insert" none cbsImpl
         let tl := if ret == retI then tl else tl.divergeAt "c.insert.ret" (toString ret) retS
         finishStep st tl c' "c.insert" (newCbs c c') cbsImpl snap g
       | _, _, _, _, _, _, _ => (st, tl.badAt act)
@@ -496,6 +530,7 @@ partial def stepCache (st : CacheSt) (tl : Tally) (act : String) (ans : String) 
               tl.monitorAt "C04" s!"quiescent get({k},{cf}) = {retS} but value {lw} was accepted for it, nothing removed, cleared or expired it and no capacity pressure occurred"
             else tl
           | none => tl
+        let tl := monitorIsolation tl g snap k cf "get" retI cbsImpl
         let tl := if ret == retI && (retS == "none" || retI.isSome) then tl else tl.divergeAt "c.get.ret" (toString ret) retS
         finishStep st tl c' "c.get" (newCbs c c') cbsImpl snap g
       | _, _ => (st, tl.badAt act)
@@ -520,6 +555,7 @@ partial def stepCache (st : CacheSt) (tl : Tally) (act : String) (ans : String) 
                                  accepted := v :: g.accepted,
                                  lastWrite := ((k, cf), v) :: g.lastWrite.filter (·.1 != (k, cf)) }
           | none => g
+        let tl := monitorIsolation tl g snap k cf "get_mut" retI cbsImpl
         let tl := if ret == retI && (retS == "none" || retI.isSome) then tl else tl.divergeAt "c.getmut.ret" (toString ret) retS
         finishStep st tl c' "c.getmut" (newCbs c c') cbsImpl snap g
       | _, _, _ => (st, tl.badAt act)
@@ -538,6 +574,10 @@ partial def stepCache (st : CacheSt) (tl : Tally) (act : String) (ans : String) 
               else (if retS == toString (d - (now - cr)) then tl else tl.monitorAt "C03" s!"get_ttl({k}) = {retS}, remaining time is {d - (now - cr)}")
             else tl
           | none => if retS == "none" then tl else tl.monitorAt "C03" s!"get_ttl({k}) = {retS} for an absent key"
+        let tl := match g.prev.bind (fun p => findItem p k) with
+          | some (_, pcf, _, _, _) => if cf != 0 && pcf != 0 && cf != pcf && retS != "none" then
+              tl.monitorAt "C18" s!"get_ttl for key ({k},{cf}) reported the TTL of the colliding key ({k},{pcf})" else tl
+          | none => tl
         let tl := if retM == retS then tl else tl.divergeAt "c.getttl.ret" retM retS
         finishStep st tl c "c.getttl" [] cbsImpl snap g
       | _, _ => (st, tl.badAt act)
@@ -549,6 +589,7 @@ partial def stepCache (st : CacheSt) (tl : Tally) (act : String) (ans : String) 
           if (c.store.tryRemove k cf).2.isSome then "remove.resident" else "remove.absent")
         let tl := if retS == "err" then tl.monitorAt "C20" s!"remove({k},{cf}) failed (insert buffer full): remove() would panic" else tl
         let g := if retS == "err" then { g with errored := true } else g
+        let tl := monitorIsolation tl g snap k cf "remove" none cbsImpl
         let (c', blocked) := c.remove k cf
         let expect := if blocked then "blocked" else "ok"
         let tl := if retS == expect then tl else tl.divergeAt "c.remove.ret" expect retS
@@ -565,7 +606,8 @@ partial def stepCache (st : CacheSt) (tl : Tally) (act : String) (ans : String) 
         let (c', res) := c.waitEnq id
         let expect := match res with | none => "ok" | some false => "err" | some true => "blocked"
         let tl := tl.bump s!"wait.{expect}"
-        let g := if retS == "blocked" then { g with blocked := ("wait", id) :: g.blocked, waitFifo := g.waitFifo ++ [id] } else g
+        let g := if retS == "blocked" then { g with blocked := ("wait", id) :: g.blocked, waitFifo := g.waitFifo ++ [id],
+                                                    waitSubjects := (id, g.removedVals, g.accepted) :: g.waitSubjects } else g
         let tl := if g.closeReturned && retS != "ok" then tl.monitorAt "C12" s!"wait() after close() had returned gave {retS}" else tl
         let tl := if retS == expect then tl else tl.divergeAt "c.wait.ret" expect retS
         finishStep st tl c' "c.wait" [] cbsImpl snap g
@@ -622,7 +664,20 @@ partial def stepCache (st : CacheSt) (tl : Tally) (act : String) (ans : String) 
             tl.monitorAt (if kind == "wait" then "C10" else "C11")
               s!"{kind}() (call {id}) returned although the processor had not yet handled its request"
           else tl
-        let g := { g with blocked := g.blocked.filter (· != (kind, id)) }
+        -- C10, the barrier: when wait() returns Ok, everything issued before it has been applied
+        let tl := if kind == "wait" && retS == "ok" && !(snap.closed) then
+            match g.waitSubjects.find? (·.1 == id) with
+            | some (_, removedBefore, acceptedBefore) =>
+              let res := residentVals snap
+              let tl := removedBefore.foldl (fun tl v => if res.contains v then
+                  tl.monitorAt "C10" s!"wait() (call {id}) returned Ok but value {v}, removed before the call, is resident"
+                else tl) tl
+              acceptedBefore.foldl (fun tl v =>
+                if res.contains v || g.calledBack.contains v || g.dropped.contains v || cbsImpl.any (·.val == v) then tl
+                else tl.monitorAt "C10" s!"wait() (call {id}) returned Ok but value {v}, accepted before the call, is neither resident nor handed to a callback: its insert has not been applied") tl
+            | none => tl
+          else tl
+        let g := { g with blocked := g.blocked.filter (· != (kind, id)), waitSubjects := g.waitSubjects.filter (·.1 != id) }
         let g := if kind == "clear" || kind == "close" then
             match g.clearing.find? (·.1 == id) with
             | some (_, vs) => { g with preClear := vs ++ g.preClear, clearing := g.clearing.filter (·.1 != id) }
@@ -659,6 +714,13 @@ partial def stepCache (st : CacheSt) (tl : Tally) (act : String) (ans : String) 
             | .new _ _ cost _ _ => deriveRefills est inc (c.internalCost cost) c.lfu [] obsPairs [] []
             | _ => ([], [])
           let tl := errs.foldl (fun tl e => tl.guardAt s!"p.item: {e}") tl
+          -- guard VictimsOk of the C06 theorem: no sampled victim is the incoming key
+          let tl := match it with
+            | .new k _ cost _ _ =>
+              match (policyAdd (({ c with buf := c.buf.tail } : Cache).admitPending).lfu est k (c.internalCost cost) refills).victims with
+              | some vs => if vs.any (·.1 == k) then tl.guardAt s!"p.item: the incoming key {k} was sampled as its own victim" else tl
+              | none => tl
+            | _ => tl
           match c.procItem su est refills with
           | none => (st, tl.divergeAt "p.item" "not enabled" descS)
           | some c' =>
@@ -674,6 +736,11 @@ partial def stepCache (st : CacheSt) (tl : Tally) (act : String) (ans : String) 
                 tl.bump (match c.store.items.get k with
                   | some e => if Store.conflictOk cf e then "delete.resident" else "delete.other_conflict"
                   | none => "delete.absent")
+              | _ => tl
+            -- C18: the processor's handling of an item of one key leaves a colliding key's entry alone
+            let tl := match implItem.getD it with
+              | .new k cf _ _ _ => monitorIsolation tl g snap k cf "the processor's insert" none cbsImpl
+              | .delete k cf => monitorIsolation tl g snap k cf "the processor's delete" none cbsImpl
               | _ => tl
             -- monitors: C16 charged cost, C08/C16 callback cost (judged on the item the implementation handled)
             let tl := match implItem.getD it with
@@ -736,6 +803,11 @@ partial def stepCache (st : CacheSt) (tl : Tally) (act : String) (ans : String) 
         let due := c.dueKeys now
         let tl := if (KMap.sorted order) == (KMap.sorted due) then tl
           else tl.guardAt s!"p.tick visited {order.length} keys, the due buckets hold {due.length}"
+        -- guard TickOk of the C06 theorem: filed conflict hashes pass the store's check
+        let tl := if order.all (fun (k, cf) => match c.store.items.get k with
+            | some e => Store.conflictOk cf e
+            | none => true) then tl
+          else tl.guardAt "p.tick: a due bucket files a key under a conflict hash that does not match the resident entry"
         match c.procTick now order with
         | none => (st, tl.divergeAt "p.tick" "not enabled" "ran")
         | some c' =>
@@ -778,7 +850,12 @@ partial def stepCache (st : CacheSt) (tl : Tally) (act : String) (ans : String) 
     | ["p.stop"] =>
       match c.procStop with
       | none => (st, tl.divergeAt "p.stop" "not enabled" "stopped")
-      | some c' => finishStep st (tl.bump "p.stop") c' "p.stop" [] cbsImpl snap { g with stopped := true }
+      | some c' =>
+        -- close() drops whatever is still buffered or resident without a callback (C08's exception)
+        finishStep st (tl.bump "p.stop") c' "p.stop" [] cbsImpl snap
+          { g with stopped := true,
+                   dropped := (g.accepted.filter fun v => !g.calledBack.contains v && !g.dropped.contains v &&
+                                 !(residentVals snap).contains v && !(cbsImpl.any (·.val == v))) ++ g.dropped }
     | ["w.stop"] =>
       let ok := (lookup r "ok").getD "0"
       let tl := if ok == "1" then tl else tl.monitorAt "C12" "the policy worker did not receive the stop signal from close()"
